@@ -17,7 +17,7 @@ var simKinds = map[string][]string{
 	"C02": {"silenced-alert-notified", "api-silence-status", "harness-or-api-error"},
 	"C03": {"inhibited-alert-notified", "api-inhibit-status", "harness-or-api-error"},
 	"C04": {"unjustified-notification", "first-notification-without-firing", "resolved-only-after-resolved-only", "repeat-late", "harness-or-api-error"},
-	"C05": {"resolved-sent-without-send-resolved", "resolved-before-end", "resolved-not-true", "firing-not-true", "resolved-not-reported", "harness-or-api-error"},
+	"C05": {"resolved-sent-without-send-resolved", "resolved-before-end", "resolved-not-true", "firing-not-true", "resolved-not-reported", "knowledge-missing", "api-groups", "harness-or-api-error"},
 	"C06": {"foreign-alert", "group-labels", "wrong-receiver", "missing-alert-in-notification", "group-key", "api-groups", "harness-or-api-error"},
 	"C15": {"time-muted-flush-notified", "api-muted-by", "harness-or-api-error"},
 }
@@ -110,7 +110,7 @@ func TestC05Sim(t *testing.T) {
 	runSimCheck(t, simCheck{
 		Property: "C05", Name: "C05Sim",
 		Rule:   "whole-system scenarios with resolve / re-fire timelines, both values of send_resolved, slow/failing/hanging integrations. Non-trivial: >=1 resolved obligation evaluated or a resolved alert was listed.",
-		Params: sim.GenParams{Faults: true, Silences: true, Gets: true},
+		Params: sim.GenParams{Faults: true, Silences: true, Gets: true, Flap: true},
 		NonTrivial: func(st sim.Stats, sc *sim.Scenario, tr *sim.Trace) bool {
 			for _, a := range tr.Attempts {
 				for _, al := range a.Alerts {
@@ -120,6 +120,39 @@ func TestC05Sim(t *testing.T) {
 				}
 			}
 			return st.ResolvedObligations > 0
+		},
+	})
+}
+
+func TestC01Sim(t *testing.T) {
+	runSimCheck(t, simCheck{
+		Property: "C01", Name: "C01Sim",
+		Rule:   "whole-system scenarios in virtual time: routing config, alert timelines (fire, heartbeat, explicit/timeout end, re-fire), silences and inhibiting alerts coming and going, time intervals, integration fault plans. Knowledge obligation evaluated at every step instant. Non-trivial: >=1 knowledge obligation evaluated and the case has a suppression that ended, a delivery failure, or a re-created group.",
+		Params: sim.GenParams{Silences: true, Inhibit: true, Intervals: true, Faults: true, Gets: true},
+		NonTrivial: func(st sim.Stats, _ *sim.Scenario, _ *sim.Trace) bool {
+			return st.KnowledgeObligations > 0 && (st.SuppressionEnded || st.Failures > 0 || st.GroupsRecreated > 0)
+		},
+	})
+}
+
+func TestC04Sim(t *testing.T) {
+	runSimCheck(t, simCheck{
+		Property: "C04", Name: "C04Sim",
+		Rule:   "whole-system scenarios with long tails (>= repeat_interval + group_interval) so that repeats are due; nflog GC running. Non-trivial: >=1 repeat obligation evaluated and >=1 deduplicated flush (a flush that sent nothing).",
+		Params: sim.GenParams{Silences: true, Faults: true, LongTail: true, MaxSteps: 12},
+		NonTrivial: func(st sim.Stats, _ *sim.Scenario, _ *sim.Trace) bool {
+			return st.RepeatObligations > 0 && st.DedupedFlushes > 0
+		},
+	})
+}
+
+func TestC02Sim(t *testing.T) {
+	runSimCheck(t, simCheck{
+		Property: "C02", Name: "C02Sim",
+		Rule:   "whole-system scenarios with silences created (pending or active), expired and ending while alerts fire: no notification lists an alert silenced at the flush instant; GET /alerts status.silencedBy equals the stored active silences. Non-trivial: >=1 silence whose effect ended inside the run and >=1 notification checked.",
+		Params: sim.GenParams{Silences: true, Gets: true, Faults: true},
+		NonTrivial: func(st sim.Stats, sc *sim.Scenario, _ *sim.Trace) bool {
+			return st.SuppressionEnded && st.SuppressionChecked > 0
 		},
 	})
 }
